@@ -265,6 +265,14 @@ class VBound(V):
     self.name = name
 
 
+class VSuper(V):
+  """super(Class, self): method lookup starts above Class in the declared bases."""
+
+  def __init__(self, cls, self_val):
+    self.cls = cls
+    self.self_val = self_val
+
+
 class VBuiltin(V):
   def __init__(self, name):
     self.name = name
